@@ -5,9 +5,11 @@ sub-agents that write seeded changes (one property each; they see nothing of /ve
 paragraph replaces the 'Additional guidance for this round' paragraph of tools/prompts/mutant.tmpl."""
 import json, os, re, subprocess, sys
 r, gfile = sys.argv[1], sys.argv[2]
-tmpl = open('/verif/tools/prompts/mutant.tmpl').read()
+tname = sys.argv[3] if len(sys.argv) > 3 else 'mutant.tmpl'   # optional third argument: another template of tools/prompts (guidance file may be /dev/null)
+tmpl = open('/verif/tools/prompts/' + tname).read()
 guid = open(gfile).read().strip()
-tmpl = re.sub(r'Additional guidance for this round:.*?\n\n', lambda m: 'Additional guidance for this round: ' + guid + '\n\n', tmpl, count=1, flags=re.S)
+if guid:
+  tmpl = re.sub(r'Additional guidance for this round:.*?\n\n', lambda m: 'Additional guidance for this round: ' + guid + '\n\n', tmpl, count=1, flags=re.S)
 for line in open('/verif/properties.jsonl'):
     p = json.loads(line)
     pid = p['id']
